@@ -1,10 +1,33 @@
-import AcraModel.Basic.Bytes
-/-! Driver ops for C13. -/
+import AcraModel.Sql.Literal
+import AcraModel.Sql.Ident
+/-! Driver ops for C13 (re-serialisation): literal codec. -/
 namespace Driver.C13
-open AcraModel
+open AcraModel AcraModel.Sql
 
 def handle (op : String) (args : List String) : Option String :=
   match op, args with
+  | "lit.enc", [h] => do
+      let b ← ofHex h
+      pure (hexOf (Literal.encodeBytesSQL b))
+  | "lit.esc", [h] => do
+      let b ← ofHex h
+      pure (hexOf (Literal.encodeEscapeString b))
+  | "lit.scan", [d, h] => do
+      let b ← ofHex h
+      let delim := if d == "dq" then Literal.dquote else Literal.quote
+      match Literal.scanString delim true b with
+      | some (v, rest) => pure s!"ok {hexOf v} {hexOf rest}"
+      | none => pure "err"
+  | "ident.quote", [d, h] => do
+      let b ← ofHex h
+      let q : UInt8 := if d == "pg" then 34 else 96
+      pure (hexOf (Ident.quoteIdent q b))
+  | "ident.scan", [d, h] => do
+      let b ← ofHex h
+      let q : UInt8 := if d == "pg" then 34 else 96
+      match Ident.scanQuotedIdent q b with
+      | some (v, rest) => pure s!"ok {hexOf v} {hexOf rest}"
+      | none => pure "err"
   | _, _ => none
 
 end Driver.C13
